@@ -369,7 +369,8 @@ def step (c : Cfg) (s : St) : Step → St × Except Exn Unit
   | .reopen a b cl t f => reopen c s a b cl t f
   | .close a => close c s a
   | .exit a => close c s (s.temp || a)
-  | .exists => (s, .ok ())
+  | .exists =>      -- a query; it refuses an absolute name / base like `remake` does, and touches nothing either way
+    if isabs s.name || isabs s.base || isabs (withExt s.name s.fext s.filed s.ext) then (s, .error .filerError) else (s, .ok ())
   | .setName v => ({ s with name := v }, .ok ())
   | .setBase v => ({ s with base := v }, .ok ())
   | .setFiled b => ({ s with filed := b }, .ok ())
